@@ -1,5 +1,5 @@
 reg("C19", "a calculation either completes or leaves its data bases untouched",
-    parts=[dict(harness="c19_atomic", cases=dict(quick=5000, thorough=33000), timeout_case=30)],
+    parts=[dict(harness="c19_atomic", cases=dict(quick=5000, thorough=26400), timeout_case=30)],
     rule="case i = calculator number (i mod 33) of {kriging, xvalid, test_neigh, krigtest, krigcell, kribayes, krigprof, "
          "kriggam, simtub (conditional / non conditional), migrate, migrateMulti, migrateByAttribute, migrateByLocator, "
          "dbStatisticsOnGrid, dbRegression, rawToGaussianByLocator, rawToGaussian, gaussianToRaw, normalScore, rawToFactor, "
@@ -26,10 +26,10 @@ reg("C19", "a calculation either completes or leaves its data bases untouched",
                                      "fail-dbout-untouched": 12000, "rerun-after-failure": 22000,
                                      "success-dbout-preexisting": 4500, "success-dbin-untouched": 3000,
                                      "success-new-columns": 4500},
-                              thorough={"inject-fired": 60000, "inject-reports-failure": 57000,
-                                        "fail-dbin-untouched": 110000, "fail-dbout-untouched": 70000,
-                                        "rerun-after-failure": 140000, "success-dbout-preexisting": 30000,
-                                        "success-dbin-untouched": 17000, "success-new-columns": 30000})),
+                              thorough={"inject-fired": 55000, "inject-reports-failure": 52000,
+                                        "fail-dbin-untouched": 100000, "fail-dbout-untouched": 65000,
+                                        "rerun-after-failure": 130000, "success-dbout-preexisting": 26000,
+                                        "success-dbin-untouched": 16000, "success-new-columns": 26000})),
     assumptions=["faults are injected only at the instrumented sites (calc.after_check / after_preprocess / after_run / "
                  "after_postprocess in ACalculator::run, calc.addvar.db2db, calc.addvar.creator); an internal failure "
                  "branch with neither a failpoint nor a labelled natural trigger is not exercised",
